@@ -36,6 +36,9 @@ type c10step struct {
 var c10Regexps = []string{"main", "foo", "bar|baz", "runtime", "lib", "^main\\.run$", "zzz", "T", "malloc", "\\.go", "main(", "[a", "*x"}
 var c10TagRx = []string{"v1", "tenant", "k=v1", "k2", "bytes", "1kb:", "n=16:4096", "a b", "zzz"}
 
+// tagshow / taghide take plain regexps over tag names; the last ones do not compile.
+var c10WebTagRx = []string{"tenant", "k", "k2", "bytes|n", "zzz", "(", "[k"}
+
 func genC10Assign(t *simrt.Tape, sampleTypes []string) string {
 	K := simrt.KGen
 	rx := func() string { return c10Regexps[t.Choose(K, len(c10Regexps))] }
@@ -313,7 +316,7 @@ func genC10WebReq(t *simrt.Tape, withConfigOps bool) string {
 	}
 	n := t.Choose(K, 4)
 	for j := 0; j < n; j++ {
-		switch t.Choose(K, 12) {
+		switch t.Choose(K, 20) {
 		case 0:
 			q.Set("i", c10Regexps[t.Choose(K, len(c10Regexps))])
 		case 1:
@@ -337,7 +340,24 @@ func genC10WebReq(t *simrt.Tape, withConfigOps bool) string {
 		case 10:
 			q.Set("noinlines", "t")
 		case 11:
-			q.Set("th", c10TagRx[t.Choose(K, len(c10TagRx))])
+			q.Set("th", c10WebTagRx[t.Choose(K, len(c10WebTagRx))])
+		case 12:
+			q.Set("ts", c10WebTagRx[t.Choose(K, len(c10WebTagRx))])
+		case 13:
+			q.Set("ti", c10TagRx[t.Choose(K, len(c10TagRx))])
+		case 14:
+			q.Set("prunefrom", c10Regexps[t.Choose(K, len(c10Regexps))])
+		case 15:
+			q.Set("rel", "t")
+		case 16:
+			// a sample index the profile does not have: rejected late
+			q.Set("si", []string{"nosuchtype", "7", "-1"}[t.Choose(K, 3)])
+		case 17:
+			q.Set([]string{"trim", "dropneg", "mean", "norm", "compact", "showcolumns"}[t.Choose(K, 6)], []string{"t", "f"}[t.Choose(K, 2)])
+		case 18:
+			q.Set([]string{"nf", "ef"}[t.Choose(K, 2)], []string{"0", "0.5", "x"}[t.Choose(K, 3)])
+		case 19:
+			q.Set("unit", []string{"ms", "minimum", "parsecs"}[t.Choose(K, 3)])
 		}
 	}
 	if len(q) == 0 {
@@ -352,7 +372,7 @@ func mutatingQuery(target string) bool {
 		return false
 	}
 	q := u.Query()
-	for _, k := range []string{"f", "i", "h", "s", "tf", "sf", "th", "g", "noinlines"} {
+	for _, k := range []string{"f", "i", "h", "s", "tf", "sf", "th", "ts", "ti", "prunefrom", "g", "noinlines"} {
 		if q.Get(k) != "" {
 			return true
 		}
